@@ -199,7 +199,7 @@ class Hist(Scenario):
                 out = [l[:-1] if l.endswith("\r") else l for l in out]
                 self.write(f, out, repo)
                 if author != "human":
-                    self.w.ai_ckpt(author, [f], cwd=repo)
+                    self.post_ai(author, f, repo)
             else:
                 out = [l[:-1] if l.endswith("\r") else l for l in out]
                 self.write(f, out, repo)
